@@ -8,6 +8,7 @@ OccaGen/OpTable.lean.  Clause by clause:
       tokens printed from the parsed tree ARE the tokens that were parsed      C15_print_parse_tokens
       hence a C++ compiler reads the printed expression as the original one ("same values")
   (2) ... and the printed tokens parse back to the identical tree               C15_roundtrip
+  (1'),(2') every well-shaped sequence IS accepted (no hidden rejections)       C15_accepts_and_roundtrips
   (3) operator precedence and associativity are the C/C++ ones                  C15_table_is_cxx, C15_table_complete
   (4) the tokenizer's operator spellings are unambiguous                        C15_registered_spellings_unique
   (5) string / character escapes are preserved                                  C15_escape_roundtrip
@@ -17,7 +18,7 @@ Statements, declarations and the text level beyond (5), (6) are covered by the h
 correspondence run, not by theorems.
 -/
 import OccaModel.Expr
-import OccaProofs.Lemmas.ExprMain
+import OccaProofs.Lemmas.ExprProgress
 
 namespace Occa.Expr.C15
 open Occa Occa.Gen Occa.Expr
@@ -37,6 +38,15 @@ theorem C15_print_parse_tokens (ts : List Tok) (e : Expr) (hshape : CShape ts = 
 theorem C15_roundtrip (ts : List Tok) (e : Expr) (hshape : CShape ts = true) (hlex : Lexed ts)
     (hparse : parse ts = .ok e) : parse (printToks e) = .ok e :=
   parse_printToks ts e hshape hlex hparse
+
+/-- (1'), (2') **no hidden rejections**: EVERY token sequence with the shape of a C expression is accepted
+    by the (repaired) parser, its printed tokens are the sequence itself, and they parse back to the same
+    tree.  (`C15_print_parse_tokens` alone would be vacuous for inputs the parser rejects; before the repairs
+    `a - -b`, `a[i++]`, `(int) -x`, `a ? b = c : d`, `a ? b ? c : d : e` were such inputs.) -/
+theorem C15_accepts_and_roundtrips (ts : List Tok) (hshape : CShape ts = true) (hlex : Lexed ts) :
+    ∃ e, parse ts = .ok e ∧ printToks e = ts ∧ parse (printToks e) = .ok e := by
+  obtain ⟨e, h1, h2⟩ := parse_accepts ts hshape hlex
+  exact ⟨e, h1, h2, by rw [h2]; exact h1⟩
 
 /-- the hypotheses are satisfiable by the adjacency-critical and the nested cases:
     `a - - b * ( int ) - c ? x ++ : y [ i -- ] , f ( p , & q )` -/
